@@ -237,6 +237,23 @@ def trace_assemble(src: str, rom: str = "low_rom", cwd: str | None = None, timeo
                         mk()
                     p.resolve_labels(nodes)
                     p.emit(nodes, w)
+                    # nodes the emission loop did not hand to `emit` (a refactoring may skip classes that emit nothing): their
+                    # run address is that of the next emitted node when no position directive lies between, and a label's
+                    # value is read from the label table when the name is defined once
+                    all_labels = labels_of(p.resolver)
+                    for i, rec in enumerate(recs):
+                        if rec["run"] is None:
+                            rec["not_emitted"] = True
+                            for nxt in recs[i + 1:]:
+                                if nxt["cls"] in ("CodePositionNode", "RelocationAddressNode"):
+                                    break
+                                if nxt["run"] is not None:
+                                    rec["run"] = nxt["run"]
+                                    break
+                            if rec["cls"] in ("LabelNode", "BinaryNode"):
+                                vals = [v for k, v in all_labels if k == rec["name"]]
+                                if len(vals) == 1:
+                                    rec["label_value"] = rec["symbol_value"] = vals[0]
                     res["nodes"] = recs
             if err is not None:
                 res["status"] = "rejected"
